@@ -105,14 +105,12 @@ Proof.
     destruct ud; rewrite ?map_app; reflexivity.
 Qed.
 
-Lemma res_map_inv {A B} (f : A -> res B) (g : A -> B) : forall l ys,
-  (forall x y, In x l -> f x = Ok y -> y = g x) -> res_map f l = Ok ys -> ys = map g l.
+Lemma res_map_ok {A B} (f : A -> res B) (g : A -> B) : forall l,
+  (forall x, In x l -> f x = Ok (g x)) -> res_map f l = Ok (map g l).
 Proof.
-  induction l as [|x t IH]; intros ys H E; cbn [res_map] in E; [inversion E; reflexivity|].
-  destruct (f x) as [y|e] eqn:Fx; [|discriminate]. cbn [bind] in E.
-  destruct (res_map f t) as [yt|e] eqn:Ft; [|discriminate]. cbn [bind] in E. inversion E; subst ys.
-  cbn [map]. f_equal; [apply H; [left; reflexivity | exact Fx]|].
-  apply IH; [|reflexivity]. intros x' y' Hx'. apply H. right. exact Hx'.
+  induction l as [|x t IH]; intros H; [reflexivity|]. cbn [res_map map].
+  rewrite (H x (or_introl eq_refl)). cbn [bind]. rewrite IH by (intros y Hy; apply H; right; exact Hy).
+  reflexivity.
 Qed.
 
 (* whenever the function returns at all, it returns the specification *)
@@ -122,34 +120,32 @@ Lemma transpose_ok_spec m ud imax sl E L Lc t :
   transpose m ud imax sl E L Lc = Ok t -> t_out t = transpose_spec m ud imax sl.
 Proof.
   intros HL HLc HD Hi EQ.
-  destruct ud eqn:U.
-  - destruct (Nat.eq_dec (length (apply_slice sl (all_entries m true))) 0) as [Z|NZ].
-    + rewrite (transpose_no_value_rejects m imax sl E L Lc HL HLc (HD eq_refl) Hi Z) in EQ. discriminate.
-    + destruct (transpose_exact m true imax sl E L Lc HL HLc HD Hi (fun _ => NZ)) as (t' & EQ' & EO & _).
-      rewrite EQ in EQ'. inversion EQ'; subst t'. exact EO.
-  - destruct (transpose_exact m false imax sl E L Lc HL HLc HD Hi) as (t' & EQ' & EO & _); [discriminate|].
-    rewrite EQ in EQ'. inversion EQ'; subst t'. exact EO.
+  destruct (transpose_exact m ud imax sl E L Lc HL HLc HD Hi) as (t' & EQ' & EO & _).
+  rewrite EQ in EQ'. inversion EQ'; subst t'. exact EO.
 Qed.
 
-Theorem transpose_v2_exact m ud imax np E L Lc out :
-  1 <= L -> 1 <= Lc -> (ud = true -> length (dat m) = length (idx m)) ->
+(* _transpose_sparse_matrix_on_disk_v2 returns, for every worker count >= 1 (more
+   workers than rows, rows without entries, no stored value at all, no row at all
+   included - the former findings F2w, F4, F4z, F4m), and what it returns is the
+   transposition of the whole range *)
+Theorem transpose_v2_exact m ud imax np E L Lc :
+  1 <= np -> 1 <= L -> 1 <= Lc -> (ud = true -> length (dat m) = length (idx m)) ->
   Forall (fun r => r < imax) (idx m) ->
-  transpose_v2 m ud imax np E L Lc = Ok out -> out = transpose_spec m ud imax None.
+  transpose_v2 m ud imax np E L Lc = Ok (transpose_spec m ud imax None).
 Proof.
-  intros HL HLc HD HF. unfold transpose_v2.
-  destruct (np =? 0); [discriminate|].
-  set (chunk := (imax + np - 1) / np). destruct (chunk =? 0) eqn:Ec; [discriminate|].
-  apply Nat.eqb_neq in Ec.
-  destruct (res_map _ (range_chunks imax chunk)) as [pieces|e] eqn:ER; [|discriminate]. cbn [bind].
-  destruct (_ =? 0); [discriminate|]. destruct (ud && _); [discriminate|].
-  intros EQ. inversion EQ; subst out. clear EQ.
-  apply (res_map_inv _ (fun s => transpose_spec m ud imax (Some s))) in ER.
-  2:{ intros s y _ Hy. destruct (transpose m ud imax (Some s) E L Lc) as [t|] eqn:ET; [|discriminate].
-      inversion Hy; subst y. apply (transpose_ok_spec m ud imax (Some s) E L Lc t HL HLc HD); [discriminate | exact ET]. }
+  intros Hnp HL HLc HD HF. unfold transpose_v2.
+  replace (np =? 0) with false by (symmetry; apply Nat.eqb_neq; lia).
+  set (chunk := Nat.max 1 ((imax + np - 1) / np)).
+  assert (Hc : 1 <= chunk) by apply Nat.le_max_l.
+  rewrite (res_map_ok _ (fun s => transpose_spec m ud imax (Some s))).
+  2:{ intros s _. destruct (transpose_exact m ud imax (Some s) E L Lc HL HLc HD) as (t & EQ & EO & _); [discriminate|].
+      rewrite EQ, EO. reflexivity. }
+  cbn [bind].
   assert (CH : chained 0 (range_chunks imax chunk) imax).
   { unfold range_chunks. apply (range_chunks_from_chained imax 0 imax chunk); lia. }
   pose proof (merge_pieces m ud imax imax _ 0 CH) as MP. cbn zeta in MP.
-  change (off (all_entries m ud) 0) with 0 in MP. rewrite <- ER in MP.
+  change (off (all_entries m ud) 0) with 0 in MP.
+  set (pieces := map (fun s => transpose_spec m ud imax (Some s)) (range_chunks imax chunk)) in *.
   set (es := all_entries m ud) in *.
   assert (LI : sum_list (map (fun p => length (idx p)) pieces) = length (fst (snd (merge_from 0 pieces)))).
   { clear. generalize 0. induction pieces as [|p t IH]; intros i0; [reflexivity|].
@@ -158,6 +154,19 @@ Proof.
   change (off es 0) with 0. rewrite Nat.sub_0_r.
   unfold transpose_spec. cbn [apply_slice n_out_of]. fold es. fold (cnts es imax).
   unfold rows_of_range, cnt_range. rewrite Nat.sub_0_r. fold (spec_entries es imax). fold (cnts es imax).
-  f_equal. change (off es imax) with (0 + sum_list (cnts es imax)).
+  f_equal. f_equal. change (off es imax) with (0 + sum_list (cnts es imax)).
   rewrite psums_removelast_last. reflexivity.
+Qed.
+
+(* no stored value at all: the parallel version, too, writes the empty matrix *)
+Corollary transpose_v2_empty m ud imax np E L Lc :
+  1 <= np -> 1 <= L -> 1 <= Lc -> idx m = [] -> (ud = true -> dat m = []) ->
+  transpose_v2 m ud imax np E L Lc = Ok {| ptr := repeat 0 (S imax); idx := []; dat := [] |}.
+Proof.
+  intros Hnp HL HLc Hi Hd.
+  rewrite (transpose_v2_exact m ud imax np E L Lc Hnp HL HLc).
+  - f_equal. apply (transpose_spec_empty m ud imax None). cbn [apply_slice].
+    unfold all_entries. rewrite map_length, seq_length, Hi. reflexivity.
+  - intros U. rewrite Hi, (Hd U). reflexivity.
+  - rewrite Hi. constructor.
 Qed.
